@@ -65,6 +65,48 @@ macro_rules! vcheck {
     };
 }
 
+/// `vassume!(ctx, cond, "why")`: the case left the domain of the property being checked
+/// (typically: an operation that *another* property guarantees failed). The case is
+/// discarded and counted, never reported as a violation of the running property.
+#[macro_export]
+macro_rules! vassume {
+    ($ctx:expr, $cond:expr, $why:expr) => {
+        if !($cond) {
+            $ctx.discard($why);
+            return Ok(());
+        }
+    };
+}
+
+/// `vcheck_if!(active, ctx, cond, "sig", "fmt", args..)`: a violation only if `active` (the
+/// assertion belongs to the property selected by `ctx.param`), otherwise a `vassume!`.
+#[macro_export]
+macro_rules! vcheck_if {
+    ($active:expr, $ctx:expr, $cond:expr, $sig:expr, $($fmt:tt)+) => {
+        if !($cond) {
+            if $active {
+                return Err($crate::Fail::new($sig, format!($($fmt)+)));
+            } else {
+                $ctx.discard("foreign_property_violated");
+                return Ok(());
+            }
+        }
+    };
+}
+
+/// `vfail_if!(active, ctx, "sig", "fmt", args..)`: unconditional variant of [`vcheck_if!`].
+#[macro_export]
+macro_rules! vfail_if {
+    ($active:expr, $ctx:expr, $sig:expr, $($fmt:tt)+) => {{
+        if $active {
+            return Err($crate::Fail::new($sig, format!($($fmt)+)));
+        } else {
+            $ctx.discard("foreign_property_violated");
+            return Ok(());
+        }
+    }};
+}
+
 /// `note!(ctx, "fmt", args..)`: append a line to the structured rendering of the case
 /// (only evaluated when tracing, i.e. for samples and replays).
 #[macro_export]
